@@ -511,9 +511,22 @@ def factory_oracle(case, plats):
     out = {"viols": [], "advisory": None}
     with Community(plats, hide_package=case["hidden"]):
         fst, fres = build(factory, call)
+        out["outcome"] = ("ok", type(fres).__name__) if fst == "ok" else ("exc",) + exc_sig(fres)
         supplied = {k: v for k, v in args.items() if v is not None or k not in FACTORY_PARAMS}
         unknown = (not isinstance(platform, str)) or (not is_core and plat is None)
-        mixup = isinstance(transport, str) and transport in (SYNC_TRANSPORTS if is_async else ASYNC_TRANSPORTS)
+        # direct construction of the same thing: the class and the platform's own keyword arguments
+        dcls, ckw, outside = None, {}, False
+        if not unknown:
+            try:
+                if is_core:
+                    dcls = ORACLE_CORE[(platform, is_async)]
+                else:
+                    dcls, ckw = oracle_community(plat, variant, is_async, ORACLE_DRIVER_MAP[is_async])
+            except KeyError:
+                outside = True   # outside the documented structure (unknown variant, no "variants" key)
+        # the transport in effect: the user's, else the platform's, else the drivers' documented default "system"
+        eff = transport if transport is not None else ckw.get("transport", "system")
+        mixup = isinstance(eff, str) and eff in (SYNC_TRANSPORTS if is_async else ASYNC_TRANSPORTS)
         out["nontrivial"] = bool(supplied.keys() - {"host"}) or unknown or mixup
         tags = [f"stack={'async' if is_async else 'sync'}", f"nargs={min(len(supplied), 12)}",
                 "platform=" + ("core" if is_core else "unknown" if unknown else "community"),
@@ -525,25 +538,22 @@ def factory_oracle(case, plats):
         if variant:
             tags.append("variant")
         if mixup:
-            tags.append("mixup")
+            tags.append("mixup" if transport is not None else "mixup-by-default")
         out["tags"] = tuple(tags)
 
         def bad(what, **more):
             out["viols"].append((what, more))
 
-        if unknown or mixup:
+        if unknown or (mixup and transport is not None and not outside):
             if not (fst == "exc" and isinstance(fres, ScrapliException)):
                 bad("unknown platform / transport mix-up was not rejected with a scrapli exception",
                     got=exc_sig(fres) if fst == "exc" else "constructed " + type(fres).__name__)
             return out
-        # direct construction of the same thing
-        try:
-            if is_core:
-                dcls, ckw = ORACLE_CORE[(platform, is_async)], {}
-            else:
-                dcls, ckw = oracle_community(plat, variant, is_async, ORACLE_DRIVER_MAP[is_async])
-        except KeyError:
-            # outside the documented structure (unknown variant, no "variants" key)
+        if mixup and not outside and fst == "ok":
+            # no transport given: the mix-up is caught by the driver's constructor, after its other argument checks
+            bad("transport mix-up through the default transport was not rejected", got="constructed " + type(fres).__name__)
+            return out
+        if outside:
             out["advisory"] = ("unknown_variant", None if (fst == "exc" and isinstance(fres, ScrapliException)) else
                                (type(fres).__name__ if fst == "exc" else "constructed"))
             return out
@@ -632,9 +642,11 @@ def factory_case(ck, case, plats, tmpfile, lines, pending, matcher):
         reg_names = {c.__name__: c for c in cands}
         env = env_for(platform, plats, case["hidden"], reg) if not is_core else ("0" if case["hidden"] else "1")
         lines.append(f"fac {1 if is_async else 0} {enc_kw(call, reg)} {env}")
-        pending.append(("fac", desc, reg, rst, rres, reg_names, {k for k, v in call.items() if v is not None}))
+        entry = ["fac", desc, reg, rst, rres, reg_names, {k for k, v in call.items() if v is not None}, None]
+        pending.append(entry)
     # ---- the oracle on the real factory
     res = factory_oracle(case, plats)
+    entry[7] = res["outcome"]
     ck.case(("fac", desc), nontrivial=res["nontrivial"], sample=desc, tags=res["tags"])
     if res["advisory"]:
         ck.extra["advisory_unknown_variant_cases"] = ck.extra.get("advisory_unknown_variant_cases", 0) + 1
@@ -686,7 +698,7 @@ def undescribe(d, tmpfile):
             "variant": d["variant"] if "variant" in d else MISSING, "hidden": bool(d.get("community_hidden"))}
 
 
-def check_fac_reply(ck, desc, reg, rst, rres, reg_names, user_keys, reply, search):
+def check_fac_reply(ck, desc, reg, rst, rres, reg_names, user_keys, outcome, reply, search):
     """correspondence: model reply vs recorded real run"""
     from scrapli.exceptions import ScrapliException
     if rst == "ok":
@@ -705,6 +717,13 @@ def check_fac_reply(ck, desc, reg, rst, rres, reg_names, user_keys, reply, searc
         agree = real[0] == "err" and real[1] == parts[1]
     else:
         agree = False
+    if agree and parts[0] == "ok" and len(parts) > 3 and parts[3] in "01" and outcome is not None:
+        # the constructor-level transport check (Driver.__init__ / AsyncDriver.__init__) on the effective transport
+        # (BaseDriver.__init__ runs first: another constructor error may come before the transport check, never after it)
+        real_rejects = outcome[0] == "exc" and outcome[1] == "ScrapliValueError" and "provided transport is *not*" in outcome[2]
+        if (parts[3] == "1" and outcome[0] != "exc") or (parts[3] == "0" and real_rejects):
+            agree = False
+            reply = f"{reply[:200]} (constructor transport check: impl rejects={real_rejects})"
     if agree:
         ck.traces_validated += 1
     else:
@@ -802,7 +821,7 @@ def iso_construct(spec, plats):
     """spec = (via 'direct'|'factory', platform, is_async)"""
     from scrapli import AsyncScrapli, Scrapli
     via, platform, is_async = spec
-    kw = {"host": "h%d" % (hash(spec) % 7)}
+    kw = {"host": "h-" + platform.replace("_", "-")}
     if is_async:
         kw["transport"] = "asynctelnet"
     if via == "direct":
@@ -1227,7 +1246,7 @@ def gen_factory_cases(ck, tier, tmpfile):
                 cases.append(mk(is_async, platform, {"transport": t}))
             cases.append(mk(is_async, platform, {}))
     # 6. random subsets
-    nrand = 1200 if tier == "quick" else 25000
+    nrand = 1200 if tier == "quick" else 60000
     extra_names = ["auth_telnet_login_pattern", "auth_password_pattern", "auth_passphrase_pattern"]
     for _ in range(nrand):
         is_async = rng.random() < 0.5
@@ -1305,7 +1324,7 @@ def gen_iso_histories(ck, tier):
     for nm in names:
         out.append([("c", 0, E), ("c", 1, ("direct", "cisco_nxos", False)), ("r", 0, nm), ("r", 1, nm), ("r", 0, nm)])
     # random histories over all platforms, up to 4 connections
-    nrand = 250 if tier == "quick" else 6000
+    nrand = 250 if tier == "quick" else 15000
     specs = [(v, p, a) for p in CORE + ISO_COMMUNITY for v in ("direct", "factory") for a in (False, True) if not (v == "direct" and p not in CORE)]
     for _ in range(nrand):
         n = rng.choice([2, 4, 6, 9, 12])
@@ -1340,6 +1359,18 @@ def gen_iso_histories(ck, tier):
 
 def matcher(case):
     return None
+
+
+def positional_order_advisory(ck):
+    """advisory (positional calls are outside the property): do the two factories and the drivers order their parameters alike"""
+    from scrapli import AsyncScrapli, Scrapli
+    from scrapli.driver.core import IOSXEDriver
+    s = [p for p in inspect.signature(Scrapli.__new__).parameters][2:]
+    a = [p for p in inspect.signature(AsyncScrapli.__new__).parameters][2:]
+    d = [p for p in inspect.signature(IOSXEDriver.__init__).parameters][1:]
+    ck.extra["advisory_positional_order_sync_vs_async_factory_differs_at"] = [x for x, y in zip(s, a) if x != y]
+    common = [p for p in d if p in s]
+    ck.extra["advisory_positional_order_sync_factory_vs_driver_differs_at"] = [x for x, y in zip([p for p in s if p in d], common) if x != y]
 
 
 def user_shared_mutables(ck):
@@ -1450,6 +1481,7 @@ def run(tier, seed):
         fac_cases += gen_factory_cases(ck, tier, tmp.name)
         iso_cases += gen_iso_histories(ck, tier)
         user_shared_mutables(ck)
+        positional_order_advisory(ck)
         search = run_cases(ck, fac_cases, iso_cases, tmp.name)
         if ck.broken and not ck.violations:
             # directed search: widen generation (another PRNG stream, thorough-size random part) for a real failing input
